@@ -20,7 +20,7 @@ WORKERS = {"quick": 8, "thorough": 16}
 RULE = (
     "case = {n hosts (2-3) on one switch, time-out T (3-5, written to every UserSessionManager object), power "
     "duration (0/1), optional second account per node declared in the scenario, op list}; ops = add-user / disable-user / change-password / local command with credentials / "
-    "remote login / remote command (creates a uniquely named folder on the target) / remote logoff between any ordered "
+    "remote login / remote command (creates a uniquely named folder on the target) / failing remote command (deletes a missing folder) / remote logoff between any ordered "
     "pair of hosts, tick x k (1-6), terminal stop/start, node shutdown/startup; requests are formed by the agent "
     "actions' form_request. Exhaustive: every sequence of fixed depth over a reduced alphabet after each of four "
     "prefixes (none / two sessions of one user / three sessions / stale client handle); random: Hypothesis sequences "
@@ -118,6 +118,11 @@ def form(kind: str, **o) -> List:
             "node-send-remote-command",
             {"node_name": o["node"], "remote_ip": o["ip"], "command": ["file_system", "create", "folder", o["folder"]]},
         )
+    if kind == "cmdfail":  # a command the target processes but that fails: delete a folder that does not exist
+        return am.form_request(
+            "node-send-remote-command",
+            {"node_name": o["node"], "remote_ip": o["ip"], "command": ["file_system", "delete", "folder", o["folder"]]},
+        )
     if kind == "logoff":
         return am.form_request("node-session-remote-logoff", {"node_name": o["node"], "remote_ip": o["ip"]})
     if kind == "term":
@@ -132,10 +137,14 @@ def form(kind: str, **o) -> List:
 
 
 class Sess:
-    __slots__ = ("sid", "user", "client", "host", "last", "ended", "weak", "half", "reported")
+    __slots__ = ("sid", "user", "client", "host", "last", "lo", "ended", "weak", "half", "reported")
 
     def __init__(self, sid, user, client, host_, last):
         self.sid, self.user, self.client, self.host, self.last = sid, user, client, host_, last
+        # last = latest step at which the target may have processed a command of this session, lo = latest step at
+        # which it certainly did (they differ only after a failing command over a `weak` session, whose processing
+        # cannot be observed)
+        self.lo = last
         self.ended: Optional[str] = None  # None = open; else the reason it ended
         self.weak = False  # liveness direction not asserted (user disabled since, login under unspecified conditions)
         self.half = False  # the hosting node itself issued a logoff / command towards the client's address (unspecified
@@ -319,16 +328,15 @@ def run_case(case: Dict) -> CaseResult:
                 m.now += 1
                 may_end: Dict[str, str] = {}
                 for j in range(n):
-                    ages = [m.now - s_.last for s_ in m.live(j).values()]  # in login order
+                    ages = [m.now - s_.lo for s_ in m.live(j).values()]  # in login order
                     if any(a < T <= b for x, a in enumerate(ages) for b in ages[x + 1:]):
                         # an older session kept busy while a session opened after it reaches its time-out
                         res.label("tick:older-busy-newer-expiring")
                     for sid, s in m.live(j).items():
-                        age = m.now - s.last
-                        if age > T:
+                        if m.now - s.last > T:  # even the latest possible activity is more than T steps ago
                             s.ended = "timeout"
                             res.label("timeout:forced")
-                        elif age == T:
+                        elif m.now - s.lo >= T:  # exactly T (either reading), or activity uncertain
                             may_end[sid] = "timeout"
                 reconcile("tick", when, may_end)
             continue
@@ -519,12 +527,44 @@ def run_case(case: Dict) -> CaseResult:
                             f"{when}: session of {s.user} open (last active {s.last}, now {m.now}, T={T}), both ends ON, "
                             f"terminals running; response {status_of(resp)}")
             if effect and live:
-                s.last = m.now
+                s.last = s.lo = m.now
             if resp is None:
                 res.label("cmd:response-None")  # outside C16 (response contract): noted in findings/C16-NOTES.md
             elif status_of(resp) == "success" and not effect:
                 res.label("cmd:stale-success-response")  # the previous response is returned again; same note
             res.label("cmd:executed" if effect else ("cmd:no-handle" if sid is None else "cmd:not-executed"))
+            may_end = {}
+            if rev is not None and rev.ended is None:
+                may_end[sid] = "server-side-command"
+                rev.half = rev.weak = True
+            reconcile(k, when, may_end)
+            continue
+
+        if k == "cmdfail":
+            # A command the target's terminal processes over a live session but that fails (no effect to observe). On
+            # the unchanged tree Terminal.receive refreshes last_active_step for every command received over a valid
+            # session, before executing it: any processed command is activity, successful or not.
+            _, c, t = op
+            name = f"nx{i}"
+            c_on, c_term, t_on, t_term = on(c), term(c), on(t), term(t)
+            sid = peek(c, t)
+            s = m.sess[t].get(sid) if sid else None
+            rev = m.sess[c].get(sid) if sid else None
+            folders_before = [sorted(f.name for f in nd.file_system.folders.values()) for nd in nodes]
+            ok, resp = apply(k, form("cmdfail", node=host(c), ip=ip_of(t), folder=name), when)
+            if not ok:
+                break
+            if [sorted(f.name for f in nd.file_system.folders.values()) for nd in nodes] != folders_before:
+                res.violate("failing-command-changed-folders", f"{when}: deleting missing folder {name} changed a file system")
+            if s is not None and s.ended is None and c_on and c_term and t_on and t_term:
+                if s.weak:
+                    s.last = m.now  # may have been processed
+                    res.label("cmdfail:maybe-processed")
+                else:
+                    s.last = s.lo = m.now
+                    res.label("cmdfail:processed")
+            else:
+                res.label("cmdfail:no-live-session" if (s is None or s.ended is not None) else "cmdfail:unreachable")
             may_end = {}
             if rev is not None and rev.ended is None:
                 may_end[sid] = "server-side-command"
@@ -588,6 +628,7 @@ def op_strategy(n: int):
         st.tuples(st.just("login"), pair, user, pw).map(lambda x: ["login", x[1][0], x[1][1], x[2], x[3]]),
         st.tuples(st.just("cmd"), pair).map(lambda x: ["cmd", x[1][0], x[1][1]]),
         st.tuples(st.just("cmd"), pair).map(lambda x: ["cmd", x[1][0], x[1][1]]),
+        st.tuples(st.just("cmdfail"), pair).map(lambda x: ["cmdfail", x[1][0], x[1][1]]),
         st.tuples(st.just("logoff"), pair).map(lambda x: ["logoff", x[1][0], x[1][1]]),
         st.tuples(st.just("tick"), st.sampled_from([1, 1, 2, 3, 4, 6])).map(list),
         st.tuples(st.just("chpw"), node, user, pw, newpw).map(list),
@@ -627,7 +668,7 @@ def busy_idle_case(draw, excl: List[str]):
     ops.append(["login", a, t, "admin", "@cur"])
     if draw(st.booleans()):
         ops.append(["tick", draw(st.integers(1, T - 1))])
-        ops.append(["cmd", a, t])
+        ops.append([draw(st.sampled_from(["cmd", "cmd", "cmdfail"])), a, t])
     ops.append(["login", b, t, "admin", "@cur"])
     if draw(st.integers(0, 3)) == 0:
         ops.append(["login", draw(st.sampled_from(clients)), t, "admin", "@cur"])
@@ -637,7 +678,8 @@ def busy_idle_case(draw, excl: List[str]):
         d = draw(st.integers(1, T - 1))
         ops.append(["tick", d])
         elapsed += d
-        ops.append(["cmd", a, t])  # keeps the first session fresh (when a == b the first handle is the first session)
+        # keeps the first session fresh (when a == b the first handle is the first session); a failing command counts
+        ops.append([draw(st.sampled_from(["cmd", "cmd", "cmdfail"])), a, t])
         if draw(st.integers(0, 5)) == 0:
             ops.append(draw(noise))
     ops.append(["cmd", b, t])
@@ -698,6 +740,7 @@ BUSY_PREFIXES = [
 ]
 BUSY_ALPHABET = [
     ["cmd", 0, 1],
+    ["cmdfail", 0, 1],
     ["cmd", 2, 1],
     ["tick", 1],
     ["tick", 2],
@@ -739,8 +782,8 @@ def worker(ctx: Ctx):
         f"declared on h1, all sequences of depth {plan[0][1]} over a {len(ACC_ALPHABET)}-symbol accounts alphabet (re-add of "
         f"existing enabled / disabled names, disable, logins and a local command with the re-add's password); plus, n=3, "
         f"after two logins on h1 from two clients (both login orders), all sequences of depth "
-        f"{3 if ctx.tier == 'quick' else 5} over a {len(BUSY_ALPHABET)}-symbol alphabet (command via either session, tick "
-        f"1/2/3, logoff, login) -- one session kept busy while the other idles past the time-out"
+        f"{3 if ctx.tier == 'quick' else 5} over a {len(BUSY_ALPHABET)}-symbol alphabet (command via either session, failing "
+        f"command via the first, tick 1/2/3, logoff, login) -- one session kept busy while the other idles past the time-out"
     )
     nrand = 180 if ctx.tier == "quick" else 2000
     hyp_run(ctx, case_strategy(30, excl), run_case, nrand)
